@@ -77,6 +77,13 @@ CONTRACTS = [
                   'callbacks': 'SixCalls(cb_calls[len(old(cb_calls)):], module, param, self.cache[(module, param)],'
                                ' self.cache[(module, param)].value, timestamp, readerror)'},
          raises={'import_failed': 'readerror is None', 'cache_untouched': "unchanged('cache')", 'no_callback': 'cb_calls == old(cb_calls)'}),
+    # registration (bounded stand-in only): every given callback is called back at once with the cached state and stays registered,
+    # unless IT raised UnregisterCallback on that immediate call - independently of the other callbacks of the same call
+    dict(key='ProxyClient.register_callback', vc=False, file='frappy/client/__init__.py', func='ProxyClient.register_callback',
+         serves=['C12'], self_type='ProxyClient', requires=[],
+         ensures={'registered': 'all((f in self.callbacks[n].get(key, [])) == (not one_shot) for n, f, one_shot in given)',
+                  'immediate': 'all(len([1 for c in cb_calls if c[0] is f]) == expect_calls[n] for n, f, one_shot in given)'},
+         raises='never'),
     dict(key='ProxyClient.callback', vc=False, file='frappy/client/__init__.py', func='ProxyClient.callback', serves=['C12'],
          self_type='ProxyClient', requires=[],
          ensures={'each_once': 'EachOnce(registered_before, cb_calls[len(old(cb_calls)):])',
